@@ -11,6 +11,9 @@ CHECKS = {
 CHECKS['C08'] = dict(level='model_checking', design='1/C08',
      text='All execution paths of the real UTF-8/16/32 converters, count/chars/iteration and case-mapping code are explored for every sequence of 1-3 scalar values and every byte string within the stated lengths (stored flush against the end of their allocation); every assertion and memory access is an SMT query over all values on the path.',
      note='Bounds in evidence. Case tables enter the solver as array constants (one axiom per entry). Trusted: z3, engine IR semantics, engine models of malloc/memcpy/strlen.')
+CHECKS['C01'] = dict(level='model_checking', design='1/C01',
+     text='Every history of 2 (thorough: 3) Array operations - op kind, indices, counts and element values all symbolic - is executed on the real template code for int, a constructor-counting class and String, through one handle, a shared handle and a clone, against a reference sequence; each path ends with element-lifetime and leak checks; memory safety of every access is decided by the solver.',
+     note='Bounds in evidence. Known finding C01-shared-handle-dangles-after-growth is reported as KNOWN-FINDING. Trusted: z3, engine IR semantics and heap model (realloc always moves).')
 NA = {
 }
 ALL = ['C%02d' % i for i in range(1, 21)]
